@@ -40,6 +40,8 @@ Section Cache.
   | Mutate (f : D -> D)            (* create / delete / rename / edit metadata *)
   | Tick (dt : Z)                  (* the clock advances *)
   | List (p : P)                   (* a listing request through protocol p *)
+  | Probe (p : P)                  (* a request for the directory that never reaches getdirlist():
+                                      HTTP HEAD (prepare() runs, nothing is saved), Gopher+ `!` (no prepare()) *)
   | Damage (g : bytes).            (* the cache file is replaced by other bytes (crashed writer ...) *)
 
   Inductive reply :=
@@ -79,6 +81,7 @@ Section Cache.
     | Mutate f => let d := f (dir s) in (mk d (file s) (now s) ((now s, d) :: hist s), None)
     | Tick dt => (mk (dir s) (file s) (now s + dt) (hist s), None)
     | List p => do_list repaired s p
+    | Probe _ => (s, None)
     | Damage g => (mk (dir s) (Some (now s, g)) (now s) (hist s), None)
     end.
 
@@ -112,7 +115,7 @@ End Cache.
 
 Arguments mk {D}. Arguments dir {D}. Arguments file {D}. Arguments now {D}. Arguments hist {D}.
 Arguments init {D}.
-Arguments Mutate {D P}. Arguments Tick {D P}. Arguments List {D P}. Arguments Damage {D P}.
+Arguments Mutate {D P}. Arguments Tick {D P}. Arguments List {D P}. Arguments Probe {D P}. Arguments Damage {D P}.
 Arguments Served {L P}. Arguments Crashed {L P}.
 Arguments Hit {L}. Arguments Miss {L}. Arguments Broken {L}.
 Arguments alive {D}.
